@@ -303,6 +303,10 @@ def gen_scenario(rng, prof=None, force_selflock=None):
         # between two runs the driven part is also mounted on a second motor (sim/build.py 'remount')
         idx_ = [k_ for k_, o_ in enumerate(sched) if o_['op'] == 'run'][1]
         sched.insert(idx_, {'op': 'remount'})
+    if len([o_ for o_ in sched if o_['op'] == 'run']) >= 2 and rng.random() < p.get('p_report', 0.3):
+        idx_ = [k_ for k_, o_ in enumerate(sched) if o_['op'] == 'run'][1]
+        if sched[idx_ - 1]['op'] not in ('reapply', 'reset', 'newsolver', 'setload'):
+            sched.insert(idx_, {'op': 'report', 'seed': rng.randrange(1 << 30)})       # live state reported in other units (sim/build.py)
     if rng.random() < p.get('p_badrun', 0.12):
         # calls of Solver.run rejected at the argument checks, anywhere in the schedule
         for _ in range(rng.randint(1, 2)):
